@@ -256,7 +256,7 @@ func init() {
 // a package that is skipped, or a successful return that neither printed nor deleted the derived file, leaves the functions of
 // an earlier run in place; a plugin list ordered by stale prefixes hands a call to another plugin.
 func premises(c *Ctx) {
-	runG10(c.Repo, c.Rep)
+	g10PrintOrDelete(c.Repo, c.Rep)
 	g31NoPackageSkipped(c.Repo, c.Rep)
 	if mainFn := c.Repo.lookup("main.main"); mainFn != nil {
 		g8Prefix(c.Repo, c.Rep, mainFn)
